@@ -48,6 +48,7 @@ theorem WStep.trans {w w1 w2 : Worker} {e1 e2 : ErrQ} {k1 k2 : Nat}
 @[simp] theorem bump_inbox (w : Worker) (c : Cmd) : (w.bump c).inbox = w.inbox := by cases c <;> rfl
 @[simp] theorem bump_backlog (w : Worker) (c : Cmd) : (w.bump c).backlog = w.backlog := by cases c <;> rfl
 @[simp] theorem bump_faults (w : Worker) (c : Cmd) : (w.bump c).faults = w.faults := by cases c <;> rfl
+@[simp] theorem bump_forever (w : Worker) (c : Cmd) : (w.bump c).forever = w.forever := by cases c <;> rfl
 
 theorem run_wstep (w : Worker) (c : Cmd) (ha : w.st = .alive) : WStep w (w.run c).1 (w.run c).2 0 := by
   unfold Worker.run
@@ -59,6 +60,7 @@ theorem run_wstep (w : Worker) (c : Cmd) (ha : w.st = .alive) : WStep w (w.run c
     · exact ⟨by simp, by simp [ha], fun h => Or.inl (by simpa using h), by simp, by simp, by simp [ha]⟩
     · exact ⟨by simp, by simp, fun h => Or.inl (by simpa using h), by simp, by simp, by simp⟩
     · exact ⟨by simp, by simp, fun h => Or.inl (by simpa using h), by simp, by simp, by simp⟩
+    · exact ⟨by simp, by simp [ha], fun h => Or.inl (by simpa using h), by simp, by simp, by simp⟩
     · exact ⟨by simp, by simp [ha], fun h => Or.inl (by simpa using h), by simp, by simp, by simp⟩
 
 theorem WStep.of_eq {w w1 w1' : Worker} {e : ErrQ} {k : Nat} (h : WStep w w1 e k)
@@ -119,8 +121,12 @@ theorem drain_wstep (n : Nat) : ∀ w : Worker, WStep w (Worker.drain n w).1 (Wo
     cases ha : w.st with
     | hung =>
       simp only
-      have := (wake_wstep w ha).trans (ih w.wake.1)
-      simpa using this
+      cases hfv : w.forever with
+      | true => simpa using WStep.refl w
+      | false =>
+        simp only [Bool.false_eq_true, if_false]
+        have := (wake_wstep w ha).trans (ih w.wake.1)
+        simpa using this
     | alive => exact WStep.refl w
     | exited => exact WStep.refl w
 
@@ -146,15 +152,19 @@ theorem recv_wstep (w : Worker) : WStep w w.recv.1 w.recv.2.1 w.recv.2.2.fails :
       | alive => simpa [Recv.fails] using WStep.refl w
       | hung =>
         simp only
-        have hw := wake_wstep w ha
-        cases hi1 : w.wake.1.inbox with
-        | nil => simpa [Recv.fails] using hw
-        | cons r rest =>
-          simp only
-          refine ⟨hw.idx, hw.exited, hw.pipe, ?_, hw.errs, hw.hb⟩
-          have := hw.fails
-          rw [hi1, hi] at this
-          cases r <;> simp [Recv.fails] at this ⊢ <;> omega
+        cases hfv : w.forever with
+        | true => simpa [Recv.fails] using WStep.refl w
+        | false =>
+          simp only [Bool.false_eq_true, if_false]
+          have hw := wake_wstep w ha
+          cases hi1 : w.wake.1.inbox with
+          | nil => simpa [Recv.fails] using hw
+          | cons r rest =>
+            simp only
+            refine ⟨hw.idx, hw.exited, hw.pipe, ?_, hw.errs, hw.hb⟩
+            have := hw.fails
+            rw [hi1, hi] at this
+            cases r <;> simp [Recv.fails] at this ⊢ <;> omega
 
 /-! ### the loop bodies -/
 
@@ -303,7 +313,11 @@ theorem wake_inbox_ne (w : Worker) (h : w.backlog ≠ []) : w.wake.1.inbox ≠ [
     intro w
     unfold Worker.drain
     cases w.st with
-    | hung => simp only; rw [ih]; exact wake_pipe w
+    | hung =>
+      simp only
+      cases w.forever with
+      | true => rfl
+      | false => simp only [Bool.false_eq_true, if_false]; rw [ih]; exact wake_pipe w
     | alive => rfl
     | exited => rfl
 
@@ -322,13 +336,17 @@ theorem wake_inbox_ne (w : Worker) (h : w.backlog ≠ []) : w.wake.1.inbox ≠ [
       | alive => simp [hp]
       | hung =>
         simp only
-        cases w.wake.1.inbox with
-        | nil => simp [hp]
-        | cons r rest =>
-          simp only
-          have := wake_pipe w
-          rw [hp] at this
-          exact this
+        cases w.forever with
+        | true => simp [hp]
+        | false =>
+          simp only [Bool.false_eq_true, if_false]
+          cases w.wake.1.inbox with
+          | nil => simp [hp]
+          | cons r rest =>
+            simp only
+            have := wake_pipe w
+            rw [hp] at this
+            exact this
 
 /-- after a successful `send` the worker's pipe is open and, if it is alive, a reply is waiting (A1) -/
 theorem sendOne_none (c : Cmd) (w : Worker) (h : (sendOne c w).2.2.2 = none) :
@@ -351,7 +369,7 @@ theorem sendOne_none (c : Cmd) (w : Worker) (h : (sendOne c w).2.2.2 = none) :
 /-- a blocking `recv` on an open pipe whose worker, if alive, has a reply waiting, and, if asleep,
     is asleep *in* a command, never blocks forever -/
 theorem recvOne_no_hang (chk : Reply → Option Exc) (w : Worker) (hp : w.pipeOpen = true)
-    (ha : w.st = .alive → w.inbox ≠ []) (hh : w.st = .hung → w.backlog ≠ []) :
+    (ha : w.st = .alive → w.inbox ≠ []) (hh : w.st = .hung → w.backlog ≠ []) (hnf : w.forever = false) :
     (recvOne chk w).2.2.2 ≠ some .hang := by
   unfold recvOne Worker.recv
   simp only [hp, Bool.true_eq_false, if_false]
@@ -363,11 +381,113 @@ theorem recvOne_no_hang (chk : Reply → Option Exc) (w : Worker) (hp : w.pipeOp
     | exited => simp
     | alive => exact absurd hi (ha hs)
     | hung =>
-      simp only
+      simp only [hnf, Bool.false_eq_true, if_false]
       have := wake_inbox_ne w (hh hs)
       cases hw : w.wake.1.inbox with
       | nil => exact absurd hw this
       | cons r rest => simp only; cases chk r <;> simp
+
+/-! ### workers whose script has no `stuck` fault never sleep for good -/
+
+def NoStuck (w : Worker) : Prop := w.forever = false ∧ ∀ f ∈ w.faults, f.kind ≠ .stuck
+
+theorem lookupFault_mem {fs : List FaultAt} {c : Cmd} {k : Nat} {x : Fault} (h : lookupFault fs c k = some x) :
+    ∃ f ∈ fs, f.kind = x := by
+  unfold lookupFault at h
+  obtain ⟨f, hf, rfl⟩ := Option.map_eq_some_iff.mp h
+  exact ⟨f, List.mem_of_find?_eq_some hf, rfl⟩
+
+theorem run_nostuck (w : Worker) (c : Cmd) (h : NoStuck w) : NoStuck (w.run c).1 := by
+  unfold Worker.run
+  cases c
+  case close => exact h
+  all_goals
+    simp only
+    split
+    · exact ⟨by simpa using h.1, by simpa using h.2⟩
+    · exact ⟨by simpa using h.1, by simpa using h.2⟩
+    · exact ⟨by simpa using h.1, by simpa using h.2⟩
+    · exact ⟨by simpa using h.1, by simpa using h.2⟩
+    · rename_i hl
+      obtain ⟨f, hf, hk⟩ := lookupFault_mem hl
+      exact absurd hk (h.2 f hf)
+
+theorem runList_nostuck (cs : List Cmd) : ∀ w : Worker, NoStuck w → NoStuck (w.runList cs).1 := by
+  induction cs with
+  | nil => intro w h; exact h
+  | cons c cs ih =>
+    intro w h
+    unfold Worker.runList
+    have h1 := run_nostuck w c h
+    cases w.st with
+    | alive =>
+      simp only
+      cases (w.run c).1.st with
+      | alive => simp only; exact ih _ h1
+      | hung => exact h1
+      | exited => exact h1
+    | hung => exact h
+    | exited => exact h
+
+theorem wake_nostuck (w : Worker) (h : NoStuck w) : NoStuck w.wake.1 := by
+  unfold Worker.wake
+  cases w.backlog with
+  | nil => exact h
+  | cons c rest => exact runList_nostuck rest _ h
+
+theorem deliver_nostuck (w : Worker) (c : Cmd) (h : NoStuck w) : NoStuck (w.deliver c).1 := by
+  unfold Worker.deliver
+  cases w.st with
+  | alive => exact run_nostuck w c h
+  | hung => exact h
+  | exited => exact h
+
+theorem drain_nostuck (n : Nat) : ∀ w : Worker, NoStuck w → NoStuck (Worker.drain n w).1 := by
+  induction n with
+  | zero => intro w h; exact h
+  | succ n ih =>
+    intro w h
+    unfold Worker.drain
+    cases w.st with
+    | hung =>
+      simp only [h.1, Bool.false_eq_true, if_false]
+      exact ih _ (wake_nostuck w h)
+    | alive => exact h
+    | exited => exact h
+
+theorem recv_nostuck (w : Worker) (h : NoStuck w) : NoStuck w.recv.1 := by
+  unfold Worker.recv
+  split
+  · exact h
+  · split
+    · exact h
+    · split
+      · exact h
+      · exact h
+      · simp only [h.1, Bool.false_eq_true, if_false]
+        have hw := wake_nostuck w h
+        split
+        · exact hw
+        · exact hw
+
+/-- loop bodies keep `NoStuck` -/
+def KeepsNoStuck (f : Worker → StepRes) : Prop := ∀ w, NoStuck w → NoStuck (f w).1
+
+theorem sendOne_nostuck (c : Cmd) : KeepsNoStuck (sendOne c) := by
+  intro w h
+  unfold sendOne
+  split
+  · exact h
+  · split
+    · exact h
+    · exact deliver_nostuck w c h
+
+theorem sendCloseOne_nostuck : KeepsNoStuck sendCloseOne := by
+  intro w h
+  unfold sendCloseOne
+  split
+  · exact h
+  · exact sendOne_nostuck .close w h
 
 /-! ### `close`: every worker that got the `close` command ends -/
 
@@ -452,22 +572,23 @@ theorem wake_joinReady (w : Worker) (hc : Cmd.close ∈ w.backlog) :
       · exact ⟨Or.inl h, fun h' => by rw [h] at h'; cases h'⟩
       · exact ⟨Or.inr ⟨h2, h3⟩, fun _ => by simp only [List.length_cons]; omega⟩
 
-theorem drain_joinReady (n : Nat) : ∀ w : Worker, JoinReady w → w.backlog.length < n →
+theorem drain_joinReady (n : Nat) : ∀ w : Worker, NoStuck w → JoinReady w → w.backlog.length < n →
     (Worker.drain n w).1.st = .exited := by
   induction n with
-  | zero => intro w _ h; omega
+  | zero => intro w _ _ h; omega
   | succ n ih =>
-    intro w hj hn
+    intro w hns hj hn
     unfold Worker.drain
     rcases hj with h | ⟨h1, h2⟩
     · simp [h]
-    · simp only [h1]
+    · simp only [h1, hns.1, Bool.false_eq_true, if_false]
       obtain ⟨hj', hlt⟩ := wake_joinReady w h2
+      have hns' := wake_nostuck w hns
       rcases hj' with h | ⟨h3, h4⟩
       · cases n with
         | zero => simpa [Worker.drain] using h
         | succ m => unfold Worker.drain; simp [h]
-      · exact ih _ (Or.inr ⟨h3, h4⟩) (by have := hlt h3; omega)
+      · exact ih _ hns' (Or.inr ⟨h3, h4⟩) (by have := hlt h3; omega)
 
 theorem sendCloseOne_none (w : Worker) (hpipe : w.pipeOpen = false → w.st = .exited)
     (h : (sendCloseOne w).2.2.2 = none) : JoinReady (sendCloseOne w).1 := by
@@ -485,7 +606,7 @@ theorem sendCloseOne_none (w : Worker) (hpipe : w.pipeOpen = false → w.st = .e
       | hung => exact Or.inr ⟨by simp [ha], by simp⟩
       | exited => exact absurd ha he
 
-theorem recv_joinReady (w : Worker) (hj : JoinReady w) : JoinReady w.recv.1 := by
+theorem recv_joinReady (w : Worker) (hns : NoStuck w) (hj : JoinReady w) : JoinReady w.recv.1 := by
   unfold Worker.recv
   cases hp : w.pipeOpen with
   | false => simpa using hj
@@ -497,7 +618,7 @@ theorem recv_joinReady (w : Worker) (hj : JoinReady w) : JoinReady w.recv.1 := b
       simp only
       rcases hj with h | ⟨h1, h2⟩
       · simp only [h]; exact Or.inl h
-      · simp only [h1]
+      · simp only [h1, hns.1, Bool.false_eq_true, if_false]
         have hw := (wake_joinReady w h2).1
         cases hw1 : w.wake.1.inbox with
         | nil => exact hw
@@ -512,22 +633,50 @@ theorem recvOne_fst (chk : Reply → Option Exc) (w : Worker) : (recvOne chk w).
   | block => rfl
   | noPipe => rfl
 
-theorem recvCloseOne_joinReady (w : Worker) (hj : JoinReady w) :
+theorem recvOne_nostuck (chk : Reply → Option Exc) : KeepsNoStuck (recvOne chk) := by
+  intro w h; rw [recvOne_fst]; exact recv_nostuck w h
+
+theorem recvCloseOne_nostuck : KeepsNoStuck recvCloseOne := by
+  intro w h
+  unfold recvCloseOne
+  split
+  · exact h
+  · exact recvOne_nostuck _ w h
+
+theorem recvCloseOne_joinReady (w : Worker) (hns : NoStuck w) (hj : JoinReady w) :
     JoinReady (recvCloseOne w).1 ∧ (recvCloseOne w).2.2.2 ≠ some .hang := by
   unfold recvCloseOne
   cases hp : w.pipeOpen with
   | false => simpa using hj
   | true =>
     simp only [Bool.true_eq_false, if_false]
-    refine ⟨by rw [recvOne_fst]; exact recv_joinReady w hj, ?_⟩
+    refine ⟨by rw [recvOne_fst]; exact recv_joinReady w hns hj, ?_⟩
     apply recvOne_no_hang _ w hp
     · intro ha; rcases hj with h | ⟨h, _⟩ <;> rw [ha] at h <;> cases h
     · intro _; rcases hj with h | ⟨_, h⟩
       · rename_i hh; rw [hh] at h; cases h
       · intro hb; rw [hb] at h; cases h
+    · exact hns.1
 
-theorem joinOne_joinReady (w : Worker) (hj : JoinReady w) :
+theorem joinOne_joinReady (w : Worker) (hns : NoStuck w) (hj : JoinReady w) :
     (joinOne w).2.2.2 = none ∧ (joinOne w).1.st = .exited ∧ (joinOne w).1.pipeOpen = false := by
-  have h := drain_joinReady (w.backlog.length + 1) w hj (by omega)
+  have h := drain_joinReady (w.backlog.length + 1) w hns hj (by omega)
   unfold joinOne
   simp [h]
+
+theorem joinOne_nostuck : KeepsNoStuck joinOne := by
+  intro w h
+  have hd := drain_nostuck (w.backlog.length + 1) w h
+  unfold joinOne
+  simp only
+  split
+  · exact hd
+  · exact hd
+
+/-- a `join` that returned: the process is over -/
+theorem joinOne_none (w : Worker) (h : (joinOne w).2.2.2 = none) : (joinOne w).1.st = .exited := by
+  unfold joinOne at h ⊢
+  simp only at h ⊢
+  split
+  · assumption
+  · rename_i hne; simp [hne] at h
